@@ -59,7 +59,7 @@ def exec (s : State) : Op → Out
   | .endblock dt =>
     let r := endBlock s dt
     match r.panic with
-    | some m => (r.s, .panic m, r.effs)
+    | some m => (s, .panic m, r.effs)      -- a panic in the end blocker halts the chain; no state follows
     | none => (r.s, .ok, r.effs)
 
 def Op.isEndblock : Op → Bool
